@@ -75,6 +75,7 @@ def run(ctx, obs):
         acc_named(ctx, obs, q)
     siblings(ctx, obs)
     conversions(ctx, obs)
+    bin_membership(ctx, obs)
     table_agreement(ctx, obs, 'data.base.DatasetBase.to_dict', D + 'dataset_from_dict', ignore=('time_descriptors',))
     table_agreement(ctx, obs, D + 'TemporalDataset.to_dict', D + 'dataset_from_dict')
     average(ctx, obs)
@@ -226,3 +227,30 @@ def average(ctx, obs, rule='AXIS-pair'):
             obs.check(any(isinstance(x, ast.Call) and isinstance(x.func, ast.Name) and x.func.id == 'get_unique_inverse'
                           for x in ast.walk(lab)), rule, q, 'labels returned are the unique values the row index refers to',
                       f'labels `{ast.unparse(lab)[:60]}` do not come from get_unique_inverse', '', where(prog, f, node))
+
+
+def bin_membership(ctx, obs, rule='MEMBER'):
+    """bin_time: the time points averaged into bin t are exactly the MEMBERS of bins[t] (np.isin / in1d / equality), never an
+    interval spanned by them - bins need not be contiguous on the time axis"""
+    prog = ctx.prog
+    q = D + 'TemporalDataset.bin_time'
+    f = prog.func(q)
+    r = ctx.dep.result(q)
+    inl = Inliner(r, None, tuple(f.params))
+    sels = [n for n in ast.walk(f.node) if isinstance(n, ast.Subscript) and isinstance(n.value, ast.Attribute)
+            and n.value.attr == 'measurements' and isinstance(n.slice, ast.Tuple) and len(n.slice.elts) == 3]
+    if not sels:
+        obs.unk(rule, q, 'the selection of time points on the time axis', 'no measurements[:, :, <selection>] found', where(prog, f, f.node))
+        return
+    con = 'the time points of a bin are selected by membership in the bin'
+    for n in sels:
+        e = inl.inline(n.slice.elts[2])
+        calls = {(_c.func.attr if isinstance(_c.func, ast.Attribute) else getattr(_c.func, 'id', '')) for _c in ast.walk(e) if isinstance(_c, ast.Call)}
+        order_cmp = [c for c in ast.walk(e) if isinstance(c, ast.Compare) and any(isinstance(o, (ast.Lt, ast.LtE, ast.Gt, ast.GtE)) for o in c.ops)]
+        if calls & {'isin', 'in1d'} and not order_cmp:
+            obs.ok(rule, q, con, f'`{ast.unparse(e)[:60]}`', where(prog, f, n))
+        elif order_cmp and calls & {'min', 'max', 'amin', 'amax', 'nanmin', 'nanmax'}:
+            obs.bad(rule, q, con, f'`{ast.unparse(e)[:90]}` selects every time point between the smallest and largest member of the '
+                    f'bin: for bins that are not contiguous on the time axis, points of other bins are averaged in', where(prog, f, n))
+        else:
+            obs.unk(rule, q, con, f'`{ast.unparse(e)[:80]}`: selection not recognised', where(prog, f, n))
